@@ -589,8 +589,10 @@ def run(ctx):
     r7_operators_for_containers(ctx, cls, mod)
     r7b_membership(ctx, cls, mod)
     # R10: what the proxy wraps is the very object the student code produced (shared with C06.R3)
-    from .c06 import r3_result, SANDBOX as _SB
+    from .c06 import r3_result, r3b_result_through_entry_points, SANDBOX as _SB
     r3_result(ctx, sym, ctx.repo.module(_SB), rule='R10')
+    r3b_result_through_entry_points(ctx, sym, ctx.repo.module(_SB), rule='R10')
+
     r9_inplace(ctx, sym, cls, mod)
     ctx.assume("value classes whose __op__ and reflected __rop__ disagree with each other are not modelled")
     ctx.assume("CPython's binary operator protocol (own method, then reflected method, then TypeError) is the oracle")
